@@ -626,6 +626,8 @@ class FunctionEngine(CallsMixin, Engine):
             base = base.value
         if isinstance(base, ast.Name):
             mutated.add(base.id)
+        elif isinstance(base, ast.Attribute) and isinstance(base.value, ast.Name):
+            fields.add((base.value.id, base.attr))   # container held by a field of a named object
         elif isinstance(base, ast.Attribute):
             fields.add(base.attr)
         else:
@@ -667,6 +669,19 @@ class FunctionEngine(CallsMixin, Engine):
                 if v.ty.args and v.ty.args[0].kind == 'Bottom':
                     raise Unsupported(f'loop appends to untyped list {n}: declare it in `locals`')
                 self.store(v, fresh(v.ty, f'lh_{n}'), st)
+        precise = [f for f in fields if isinstance(f, tuple)]
+        fields = {f for f in fields if not isinstance(f, tuple)}
+        for oname, f in sorted(precise):
+            obj = st.env.get(oname)
+            if obj is not None and obj.ty.kind == 'Ref' and oname not in names:
+                key, decl = self.field_decl(obj.ty.cls, f)
+                if decl is not None and isinstance(decl, str):
+                    # only this object's container may change
+                    fty = parse_type(decl)
+                    arr = self.get_field_array(st, key, fty)
+                    st.fields[key] = z3.Store(arr, obj.t, fresh(fty, f'lh_{oname}_{f}'))
+                    continue
+            fields.add(f)
         for f in sorted(fields):
             # every declared field with that name, on every object
             hit = False
